@@ -285,6 +285,9 @@ func corrC17(r *Run) {
 		"random texts over the accepted alphabet of each coding (boundary runes of every accepted run, alternating scripts for escape switching, " +
 		"one rejected rune in a separate stream) through encoder and decoder, each also evaluated by the Coq model; random sequences of valid codes " +
 		"through the decoders; all 256 data_coding values. non-trivial = distinct non-empty (coding, text) pairs"
+	waitTables := tablePerturbTest(r, "charsets")
+	defer waitTables()
+	codecHistoryTests(r, "C17", r.N(40, 600), r.N(6, 40))
 	alph := alphabets()
 
 	// ---- 1. exhaustive per-rune conformance for the codings with a standard to compare with
